@@ -194,6 +194,40 @@ def run(tier, seed, replay=None):
             out.violations.append({"kind": "outer-context", "what": f"{text!r} is judged {v}; the delegated part needs {verdict(ecmd)}, the outer part alone {verdict(outer_alone)}",
                                    "program": text, "config": CFG, "signature_text": text})
         correspond(text)
+    # (d) the SAME text delegated and local on one command line: what remote mode relaxed for the delegated copy must
+    # not leak to the local copy (nor the other way round), whatever wrapper or nested shell the local copy is run through.
+    # Every verdict of this stream is computed with a freshly parsed configuration, so that the expectation cannot share
+    # state with the command line under test.
+    def fresh(text):
+        return an.analyze(text, parse_config(CFG), Path(cwd)).action
+
+    RELAXED = ["sed -i s/a/b/ conf", "tee /etc/hosts", "sort -o out f", "curl -o x http://h/p", "rm /etc/passwd", "cat f > nogrant", "ls > /jail/secret/s"]
+    LOCAL = ["{I}", "env {I}", "sh -c '{I}'", "bash -c '{I}'", "nice {I}", "timeout 5 {I}", "command {I}", "time {I}", "X=1 {I}", "( {I} )", "echo $({I})"]
+    for k, (e, inner, wrap, j_) in enumerate(itertools.product(execs[:: (1 if tier == "thorough" else 4)], RELAXED, LOCAL, ["; ", " && ", " | ", "\n"])):
+        if tier == "quick" and k % 3 != seed % 3:
+            continue
+        ecmd, lcmd = f"{e} {inner}", wrap.replace("{I}", inner)
+        for text in (f"{ecmd}{j_}{lcmd}", f"{lcmd}{j_}{ecmd}"):
+            v = fresh(text)
+            expect = bg.vmax([fresh(ecmd), fresh(lcmd)])
+            out.case(["same-text", text])
+            out.count("shape", "same-text-sibling")
+            if v != expect:
+                out.violations.append({"kind": "sibling-shares-delegated-verdict",
+                                       "what": f"{text!r} is judged {v}; the delegated part alone needs {fresh(ecmd)}, the local part alone {fresh(lcmd)}",
+                                       "program": text, "config": CFG, "signature_text": text})
+    # (e) podman exec --latest / -l names no container: the words after the options ARE the command.  The handler reads
+    # podman's command line with docker's option grammar (which has no such flag) and drops the first word as the
+    # container name.  Expected: the verdict of the same inner command delegated the ordinary way.
+    for e, inner in itertools.product(["podman exec -l", "podman exec --latest", "podman exec -il", "podman exec -l -it", "podman exec --latest -e A=1"],
+                                      ["rm ls", "zap", "zap ls", "rm x", "ls", "frobnicate ls"]):
+        text = f"{e} {inner}"
+        v, expect = fresh(text), fresh(f"podman exec c {inner}")
+        out.case(["podman-latest", text])
+        out.count("shape", "podman-latest")
+        if bg.ORDER[v] < bg.ORDER[expect]:
+            out.violations.append({"kind": "podman-latest", "what": f"{text!r} is judged {v}: the first word of the command is taken for a container name; the command {inner!r} delegated the ordinary way is judged {expect}",
+                                   "program": text, "config": CFG, "signature_text": "podman-latest: " + text})
     model.close()
     n, mism = core.coq_crosscheck("C13", xcheck)
     out.extra["coq_vm_crosscheck"] = {"cases": n, "mismatches": len(mism)}
